@@ -244,14 +244,62 @@ func c11Case(c *core.Case) {
 	var diags hcl.Diagnostics
 	if viaAttr {
 		f := hclwrite.NewEmptyFile()
-		f.Body().SetAttributeValue("a", v)
+		// the attribute is written last in a short history of writer calls on the
+		// same body: overwrite, rename into place, remove and re-add, rename away and back
+		hist := "set"
+		body := f.Body()
+		if gen.Chance(r, 0.3) {
+			body.SetAttributeValue("before", c11Value(c, 1))
+		}
+		switch r.Intn(8) {
+		case 0:
+			body.SetAttributeValue("a", c11Value(c, 1))
+			body.SetAttributeValue("a", v)
+			hist = "set,set"
+		case 1:
+			body.SetAttributeValue("z", c11Value(c, 1))
+			body.RenameAttribute("z", "a")
+			body.SetAttributeValue("a", v)
+			hist = "set-other,rename,set"
+		case 2:
+			body.SetAttributeValue("a", c11Value(c, 1))
+			body.RemoveAttribute("a")
+			body.SetAttributeValue("a", v)
+			hist = "set,remove,set"
+		case 3:
+			body.SetAttributeValue("a", v)
+			body.RenameAttribute("a", "q")
+			body.RenameAttribute("q", "a")
+			hist = "set,rename-away,rename-back"
+		case 4:
+			body.SetAttributeValue("a", v)
+			body.SetAttributeValue("b", c11Value(c, 1))
+			body.RenameAttribute("b", "c")
+			body.RemoveAttribute("c")
+			if body.GetAttribute("c") != nil || body.GetAttribute("b") != nil {
+				c.Violation("value/renamed-attribute-survives-removal", "after SetAttributeValue(b), RenameAttribute(b, c), RemoveAttribute(c) the body still has b or c:\n"+trunc(string(f.Bytes()), 300), nil)
+				return
+			}
+			hist = "set,set-other,rename-other,remove-other"
+		case 5:
+			body.SetAttributeTraversal("z", hcl.Traversal{hcl.TraverseRoot{Name: "x"}})
+			body.RenameAttribute("z", "a")
+			body.SetAttributeValue("a", v)
+			hist = "set-traversal,rename,set"
+		default:
+			body.SetAttributeValue("a", v)
+		}
+		if gen.Chance(r, 0.3) {
+			body.SetAttributeValue("after", c11Value(c, 1))
+		}
+		c.Count("history:" + hist)
 		src = f.Bytes()
 		c11Interleave()
 		c.SetInput(string(src))
 		pf, pd := hclsyntax.ParseConfig(src, "gen.hcl", hcl.InitialPos)
 		c.Evals(1)
 		if pd.HasErrors() {
-			c.Violation("value/generated-source-does-not-parse", fmt.Sprintf("SetAttributeValue(%s) generated %q: %s", valStr(v), trunc(string(src), 400), diagStr(pd)), nil)
+			c.Violation("value/generated-source-does-not-parse", fmt.Sprintf("SetAttributeValue(%s) after %s generated %q: %s", valStr(v), hist, trunc(string(src), 400), diagStr(pd)), nil)
 			return
 		}
 		attrs, _ := pf.Body.JustAttributes()
